@@ -1,6 +1,5 @@
 import Fundraising.Generated.Code.Msgs
 import Fundraising.Proofs.Tie.Pure
-import Fundraising.Proofs.Tie.PureSched
 /-
   Tie of the translated `ValidateBasic` methods (types/msgs.go) to the model's `validateBasic`
   (see Proofs/Tie/Pure.lean for what a tie theorem is).
@@ -29,19 +28,5 @@ theorem tie_ValidateBasic_addAllowed (m : AddAllowedMsg) :
     MsgAddAllowedBidder_ValidateBasic m = !validateBasic (.addAllowed m.aid m.ab) := by
   unfold MsgAddAllowedBidder_ValidateBasic validateBasic
   grind
-
-theorem tie_ValidateBasic_createFixed (m : CreateMsg) (h : m.type = .fixed) :
-    MsgCreateFixedPriceAuction_ValidateBasic m = !validateBasic (.create m) := by
-  unfold MsgCreateFixedPriceAuction_ValidateBasic validateBasic validCoin
-  rw [tie_ValidateVestingSchedules]
-  simp only [h]
-  grind (splits := 40)
-
-theorem tie_ValidateBasic_createBatch (m : CreateMsg) (h : m.type = .batch) :
-    MsgCreateBatchAuction_ValidateBasic m = !validateBasic (.create m) := by
-  unfold MsgCreateBatchAuction_ValidateBasic validateBasic validCoin
-  rw [tie_ValidateVestingSchedules]
-  simp only [h]
-  grind (splits := 40)
 
 end Fundraising
